@@ -2,7 +2,18 @@
 // uninterpreted injective function of the blob, realised as a table token -> id.
 package vreg
 
+import "sync"
+
+// Mu guards BlobIds and the M-PACK tables of the packages that register blobs: the real
+// code reads and writes entities from several goroutines (the cache builds its sub-caches
+// in parallel), so the stubs must be safe for concurrent use natively.
+var Mu sync.Mutex
+
 // BlobIds maps an opaque blob (its bytes as a string) to the id DeriveId returns.
 var BlobIds = map[string]string{}
 
-func Reset() { BlobIds = map[string]string{} }
+func Reset() {
+	Mu.Lock()
+	defer Mu.Unlock()
+	BlobIds = map[string]string{}
+}
